@@ -358,7 +358,14 @@ pub fn random_case(rng: &mut Rng, ts: &[usize], focus: u8) -> SysCase {
         // the instruction's own bytes straddle a window boundary: its last byte (a displacement, an operand) is
         // the last byte of a 16K window whose neighbour has the other contention class, so the address carried
         // by the internal T-states that follow matters (pc+1 vs pc+2)
-        let ins: Vec<u8> = match rng.below(12) {
+        let ins: Vec<u8> = match rng.below(15) {
+            // LD I,A / LD R,A / LD A,I with the old and the new I on different sides of the contention border: the
+            // internal T-state carries IR as it was *before* the instruction
+            12 | 13 | 14 => {
+                st.w[crate::c01::AF] = (st.w[crate::c01::AF] & 0x00FF) | ([0x40u16, 0x80, 0x7F, 0x00][rng.below(4) as usize] << 8);
+                st.w[IR] = (st.w[IR] & 0x00FF) | ([0x80u16, 0x40, 0x00, 0x7F][rng.below(4) as usize] << 8);
+                vec![0xED, [0x47u8, 0x4F, 0x57][rng.below(3) as usize]]
+            }
             0 | 1 => vec![0x18, rng.u8()],                          // JR d
             2 => vec![[0x20u8, 0x28, 0x30, 0x38][rng.below(4) as usize], rng.u8()], // JR cc,d
             3 | 4 => vec![0x10, rng.u8()],                          // DJNZ d
